@@ -515,7 +515,10 @@ def _create_parsing_expression(tree):
         nop = ex.PythonExpression('None')
         expr = tree.expr
 
-        if not isinstance(expr, ex.PythonExpression):
+        if isinstance(expr, ex.Ref):
+            # "requires name": the value bound to that name.
+            expr = ex.PythonExpression(expr.name)
+        elif not isinstance(expr, ex.PythonExpression):
             expr = ex.PythonExpression(expr)
 
         func = ex.PythonExpression('lambda _: ' + expr.source_code)
